@@ -463,6 +463,19 @@ def r3(repo, chk):
 def r4(repo, chk):
     m = repo.mod(H3)
     vh = Fn(repo, f"{H3}:validate_headers")
+    # both roles hand the stream to the validator of initial headers (that is how the declared length is recorded)
+    n_calls = 0
+    for q in sorted(m.functions):
+        if not q.startswith("H3Connection."):
+            continue
+        fn = Fn(repo, f"{H3}:{q}")
+        for wname in ("validate_request_headers", "validate_response_headers"):
+            for c in fn.calls(name=wname):
+                n_calls += 1
+                st = get_kw(c, "stream", 1)
+                chk.ob("R4", f"{q}: `{wname}` receives the stream the headers arrived on", st is not None and norm(st) == "stream", "content-length of this role's messages is validated but never recorded, so it is never compared with the body", fn.loc(c))
+    if n_calls < 2:
+        raise AnalysisError("calls of validate_request_headers / validate_response_headers not found in H3Connection")
     # recorded from the validated header
     recs = vh.assigns(suffix="expected_content_length")
     ok = False
